@@ -108,6 +108,22 @@ func (s *sys) mkRec(r *rand.Rand, k, kind string, stale bool, bigVals bool) agg.
 			rec.Vals[i] = prevVals[i] + step
 		}
 	}
+	// the two nodes of an inter-node flow agree: same end second, same totals as the other node's last record
+	// (allowed by the contract whenever that does not take this node's own counters or clock backwards)
+	if other := map[string]string{"src": "dst", "dst": "src"}[kind]; other != "" && !s.global && !stale && r.Intn(5) == 0 {
+		if o := s.last[k+"/"+other]; o != nil && o.end > prevEnd {
+			ok := true
+			for _, i := range []int{0, 2, 3, 5} {
+				ok = ok && o.vals[i] >= prevVals[i]
+			}
+			if ok {
+				rec.End = o.end
+				for _, i := range []int{0, 2, 3, 5} {
+					rec.Vals[i] = o.vals[i]
+				}
+			}
+		}
+	}
 	if !stale {
 		s.last[id] = &nodeState{end: rec.End, vals: rec.Vals}
 	} else {
@@ -137,6 +153,16 @@ func (s *sys) forget(k string) {
 func (s *sys) ingest(rec agg.Rec) {
 	err := s.p.A.AggregateMsgByFlowKey(agg.BuildMessage(rec))
 	s.w.Emit(s.p.Snapshot(vt.Ev{"e": "Ingest", "r": rec, "err": err != nil}))
+}
+
+// ingestBatch: one message carrying several records (of different flows); the state is observable only after
+// the whole message, so all but the last record are logged without a snapshot (IngestPart)
+func (s *sys) ingestBatch(recs []agg.Rec) {
+	err := s.p.A.AggregateMsgByFlowKey(agg.BuildMessage(recs...))
+	for _, rec := range recs[:len(recs)-1] {
+		s.w.Emit(vt.Ev{"e": "IngestPart", "r": rec})
+	}
+	s.w.Emit(s.p.Snapshot(vt.Ev{"e": "Ingest", "r": recs[len(recs)-1], "err": err != nil}))
 }
 
 func (s *sys) advance(d int) {
@@ -290,9 +316,20 @@ func main() {
 				}
 			default: // c06, c07
 				switch {
+				case x < 8 && nk >= 2: // one message with records of several flows
+					var recs []agg.Rec
+					for _, kk := range keys[:nk] {
+						if fk, ok := flowKind[kk]; ok && s.holds(kk) || kk == k {
+							if !ok {
+								fk = flowKind[k]
+							}
+							recs = append(recs, s.mkRec(r, kk, fk[r.Intn(len(fk))], false, false))
+						}
+					}
+					s.ingestBatch(recs)
 				case x < 45:
 					kd := flowKind[k][r.Intn(len(flowKind[k]))]
-					s.ingest(s.mkRec(r, k, kd, *mode == "c07" && r.Intn(10) == 0, false))
+					s.ingest(s.mkRec(r, k, kd, r.Intn(10) == 0, false))
 				case x < 70:
 					s.advance(1 + r.Intn(2))
 				default:
